@@ -19,14 +19,19 @@ TECHNIQUE = ("Coq proof by composition: the delayed branch of LinearDense / Line
              "batch, output = sum_i W[o,i] * I_i(t - k[o,i]) with resting values before the start / last clear; relational form "
              "against the undelayed connection on the shifted history; off-grid delays = the synapse's interpolation; model tied "
              "to the code by re-translated kernels (interpolation, recordsz, _unwind_ptr) and differential correspondence")
-LEVEL_TEXT = ("Machine-checked proofs (Coq; reals axioms only) about a branch-by-branch model of the delayed forward path of the four "
-              "connection classes composed with the four synapse classes (C04) and the linear maps (C05): for all histories "
-              "(steps, clears), all weight / delay tensors with delays within tolerance of a multiple of dt in [0, max], all "
-              "sizes and batch sizes, the output is the per-synapse time shift of the undelayed currents (zero before the "
-              "start / the last clear); zero delays = the undelayed connection; delays between grid points read the class's "
-              "interpolation (exact continuous-time response for the exponential classes); syncurrent / synspike show the "
-              "same shifted values that forward contracts.  The model is run (vm_compute, binary64) against the real classes on "
-              "seeded cases; a direct oracle compares the real delayed connection with real undelayed copies fed shifted inputs.")
+LEVEL_TEXT = ("Machine-checked proofs (Coq; reals axioms only, the run invariant axiom-free and for any numeric reading) about a "
+              "branch-by-branch model of the delayed forward path of the four connection classes composed with the four synapse "
+              "classes (C04) and the linear maps (C05): for all histories (steps, view reads, delay re-assignments, clears), all "
+              "weight / delay tensors with delays within tolerance of a multiple of dt in [0, max], all sizes and batch sizes, the "
+              "output is the per-synapse time shift of the undelayed currents (zero before the start / the last clear): "
+              "general statement (any delay: on grid / between / beyond), shift on the grid, relational form per synapse, per "
+              "connection for a common delay, and as a sum of undelayed connections with the weights split by delay "
+              "(LinearDense); zero delays = the connection without delay parameter; delays between grid points read the class's "
+              "interpolation (exact continuous-time response for the exponential classes); syncurrent / synspike show the same "
+              "shifted values that forward contracts; Conv2D additionally as a cross-correlation of the input image with every "
+              "kernel element's contribution taken k[f,c,i,j] steps in the past.  The model is run (vm_compute, binary64) "
+              "against the real classes on seeded cases; a direct oracle compares the real delayed connection with real "
+              "undelayed copies fed shifted inputs.")
 LEVEL_NOTE = ("Trusted: Coq kernel; translator for the interpolation kernels, recordsz_expr, _unwind_ptr; hand-written models "
               "C06/Delay.v (selector layouts, branch test `if self.delayedby`, einsum contractions, conv 'b n l f -> b f n l'), "
               "C04/Synapse.v and C05/Conn.v validated by correspondence only; einops/einsum/F.unfold modelled by their meaning. "
